@@ -10,8 +10,10 @@ def run(ctx, out):
 
 
 def replay(ctx, rep):
-    from harness import krun
+    from harness import krun, common
     case = rep['case']
+    if case.get('scenario'):
+        return common.scenario_replay(ctx, rep, {'proxy': proxy_scenarios})
     r = krun.Run(case, ['C07']).run()
     for s in r.steps:
         print(s['op'], '->', s['outcome'])
@@ -20,3 +22,168 @@ def replay(ctx, rep):
         return 1
     print('not reproduced')
     return 0
+
+
+# ---------------------------------------------------------------------------
+# referrers in another resource that reached the deleted object through a (resolved) proxy
+# (oracle on the implementation only; the kernel model has no proxies)
+
+def proxy_scenarios(ctx, out):
+    """Two XMI files; a.xmi holds single-valued references (with and without opposite) into b.xmi.  a.xmi is
+    loaded alone, every proxy is resolved in one of the public ways, then an object of b.xmi is deleted.
+    Many-valued cross-resource references are left out: membership of a resolved proxy in a unique collection
+    is C14's known finding (stale hash) and non-unique collections are F-C07-nonunique-duplicate-target."""
+    import os
+    import tempfile
+    from harness import common
+    common.use_repo()
+    from pyecore.ecore import EClass, EAttribute, EReference, EString, EPackage, EProxy
+    from pyecore.resources import ResourceSet, URI
+    rng = common.rng_for(ctx.seed, 'C07:proxy')
+    n = 25 if ctx.tier != 'thorough' else 500
+    cnt = proxies = 0
+    for it in range(n):
+        Node = EClass('Node')
+        Node.eStructuralFeatures.append(EAttribute('name', EString))
+        Node.eStructuralFeatures.append(EReference('friend', Node))
+        Node.eStructuralFeatures.append(EReference('second', Node))
+        mate = EReference('mate', Node)
+        mateof = EReference('mateOf', Node, eOpposite=mate)
+        Node.eStructuralFeatures.extend([mate, mateof])
+        Node.eStructuralFeatures.append(EReference('local', Node, upper=-1))
+        Node.eStructuralFeatures.append(EReference('kids', Node, upper=-1, containment=True))
+        pkg = EPackage('demo', nsURI=f'http://verif/c07/{it}', nsPrefix='demo')
+        pkg.eClassifiers.append(Node)
+        na, nb = rng.randrange(2, 5), rng.randrange(2, 6)
+        plan = {'a': [], 'b': [], 'links': [], 'resolve': [], 'delete': None}
+        with tempfile.TemporaryDirectory() as tmp:
+            pa, pb = os.path.join(tmp, 'a.xmi'), os.path.join(tmp, 'b.xmi')
+            rset = ResourceSet()
+            ra, rb = rset.create_resource(URI(pa)), rset.create_resource(URI(pb))
+            nodes = {}
+            for side, k, res in (('a', na, ra), ('b', nb, rb)):
+                for i in range(k):
+                    nm = f'{side}{i}'
+                    nodes[nm] = Node(name=nm)
+                    parent = rng.choice([None] + [f'{side}{j}' for j in range(i)])
+                    plan[side].append([nm, parent])
+                    if parent is None:
+                        res.append(nodes[nm])
+                    else:
+                        nodes[parent].kids.append(nodes[nm])
+            anames, bnames = [x[0] for x in plan['a']], [x[0] for x in plan['b']]
+            used_mate = set()
+            for nm in anames:
+                for f in ('friend', 'second', 'mate'):
+                    if rng.random() < 0.6:
+                        t = rng.choice(bnames if rng.random() < 0.8 else anames)
+                        if f == 'mate':
+                            if t in used_mate or t == nm:
+                                continue
+                            used_mate.add(t)
+                        setattr(nodes[nm], f, nodes[t])
+                        plan['links'].append([nm, f, t])
+                for t in rng.sample(anames, rng.randrange(0, len(anames))):
+                    nodes[nm].local.append(nodes[t])
+                    plan['links'].append([nm, 'local', t])
+            try:
+                rb.save()
+                ra.save()
+                rset2 = ResourceSet()
+                rset2.metamodel_registry[pkg.nsURI] = pkg
+                la = rset2.get_resource(URI(pa))
+            except Exception as e:  # noqa  (saving/loading is C08/C14's subject)
+                out.notes.append(f'C07 proxy scenario skipped: {type(e).__name__}')
+                continue
+            loaded = {}
+            for root in la.contents:
+                for o in [root] + list(root.eAllContents()):
+                    loaded[o.name] = o
+            # resolve every proxy in some public way
+            for nm in anames:
+                for f in ('friend', 'second', 'mate'):
+                    v = loaded[nm].eGet(f)
+                    if isinstance(v, EProxy) and not v.resolved:
+                        how = rng.choice(['read', 'force', 'eget', 'write', 'econtainer'])
+                        plan['resolve'].append([nm, f, how])
+                        proxies += 1
+                        if how == 'read':
+                            v.name
+                        elif how == 'force':
+                            v.force_resolve()
+                        elif how == 'eget':
+                            v.eGet('name')
+                        elif how == 'write':
+                            v.name = v.name
+                        else:
+                            v.eContainer()
+            for res in list(rset2.resources.values()):
+                for root in res.contents:
+                    for o in [root] + list(root.eAllContents()):
+                        loaded.setdefault(o.name, o)
+            if not all(b in loaded for b in bnames):
+                continue          # nothing of b.xmi was referenced: no proxy, nothing to test
+            unwrap = lambda v: getattr(v, '_wrapped', None) if isinstance(v, EProxy) else v   # noqa
+
+            def snapshot():
+                d = {}
+                for nm, o in loaded.items():
+                    for f in ('friend', 'second', 'mate', 'mateOf'):
+                        v = unwrap(o.eGet(f))
+                        d[(nm, f)] = None if v is None else v.name
+                    for f in ('local', 'kids'):
+                        d[(nm, f)] = [unwrap(v).name for v in o.eGet(f)]
+                    c = o.eContainer()
+                    d[(nm, 'container')] = None if c is None else c.name
+                return d
+            victim = rng.choice(bnames)
+            recursive = rng.random() < 0.6
+            plan['delete'] = [victim, recursive]
+            pre = snapshot()
+            dead = {victim}
+            if recursive:
+                dead |= {o.name for o in loaded[victim].eAllContents()}
+            try:
+                loaded[victim].delete(recursive=recursive)
+                raised = None
+            except Exception as e:  # noqa
+                raised = type(e).__name__
+            post = snapshot()
+            cnt += 1
+            case = {'scenario': 'proxy', 'seed': ctx.seed, 'tier': ctx.tier, 'history': plan}
+            sig = {'property': 'C07', 'clause': None, 'through': 'resolved-proxy'}
+            if raised:
+                sig['clause'] = 'delete-raised'
+                out.fail(sig, f'delete of {victim} raised {raised}', case)
+                continue
+            bad = []
+            for (nm, f), v in post.items():
+                if f == 'container':
+                    if nm in dead and v is not None and (recursive or nm == victim):
+                        bad.append(('deleted-has-container', f'{nm} is deleted but still has container {v}'))
+                    continue
+                vs = v if isinstance(v, list) else ([v] if v is not None else [])
+                if nm not in dead and any(x in dead for x in vs) and f != 'kids':
+                    bad.append(('dangling', f'{nm}.{f} still refers to deleted {[x for x in vs if x in dead]}'))
+                if nm in dead and f != 'kids' and vs:
+                    bad.append(('deleted-holds-reference', f'deleted {nm}.{f} still holds {vs}'))
+                if nm not in dead:
+                    old = pre[(nm, f)]
+                    exp = [x for x in old if x not in dead] if isinstance(old, list) else (None if old in dead else old)
+                    if f == 'kids' and not recursive:
+                        exp = [x for x in old if x != victim]
+                    if exp != v and not any(x in dead for x in vs):
+                        bad.append(('survivor-changed', f'{nm}.{f} was {old}, is {v}'))
+            if bad:
+                sig['clause'] = bad[0][0]
+                out.fail(sig, f'after {victim}.delete(recursive={recursive}): {bad[0][1]}', case)
+    out.coverage['proxy_delete_cases'] = cnt
+    out.coverage['proxy_delete_proxies_resolved'] = proxies
+
+
+_kernel_run = run
+
+
+def run(ctx, out):   # noqa: F811
+    _kernel_run(ctx, out)
+    proxy_scenarios(ctx, out)
